@@ -22,6 +22,7 @@ package flood
 //             sequence number above the one this announcement carries.
 
 import (
+	"bytes"
 	"fmt"
 	"testing"
 	"time"
@@ -180,6 +181,33 @@ func (st *c14State) announceAndJudge(o int) {
 	}
 }
 
+// checkSequenceReuse: at the link layer, no agent ever puts two different advertisements on the
+// wire under one of its own sequence numbers. Only frames an agent originated (announcement,
+// withdrawal, replay) are looked at; the copies of one announcement sent to several
+// neighbours are byte-identical.
+func (st *c14State) checkSequenceReuse() {
+	type k struct {
+		from int
+		seq  uint64
+	}
+	seen := map[k]*simFrame{}
+	for _, f := range st.s.Sent {
+		if !f.Originated || f.DecodeErr != "" || (f.Type != protocol.FrameRouteAdvertise && f.Type != protocol.FrameRouteWithdraw) {
+			continue
+		}
+		st.r.Add("originated_frames_checked", 1)
+		key := k{f.From, f.Seq}
+		if g, ok := seen[key]; ok {
+			if !bytes.Equal(g.Wire, f.Wire) {
+				st.bad("sequence-reused:different-advertisements-under-one-number", fmt.Sprintf("agent %d put two different advertisements on the wire under its sequence number %d: %s and %s", f.From, f.Seq, g, f))
+				return
+			}
+			continue
+		}
+		seen[key] = f
+	}
+}
+
 func (st *c14State) processedAll(x, o int, seqs map[uint64]bool) bool {
 	for q := range seqs {
 		if !st.processed[[3]uint64{uint64(x), uint64(o), q}] {
@@ -189,8 +217,11 @@ func (st *c14State) processedAll(x, o int, seqs map[uint64]bool) bool {
 	return true
 }
 
-func c14Case(r *verifkit.R, phase string, ci int, rng *verifkit.Rand, churn bool) {
+func c14Case(r *verifkit.R, phase string, ci int, rng *verifkit.Rand, churn, large bool) {
 	n := rng.Range(3, 5)
+	if large {
+		n = rng.Range(3, 4)
+	}
 	g := simRandomConnectedGraph(rng, n, 30)
 	s := newSimNet(n, nil)
 	defer s.Close()
@@ -230,6 +261,26 @@ func c14Case(r *verifkit.R, phase string, ci int, rng *verifkit.Rand, churn bool
 			}
 		}
 	}
+	largeDesc := ""
+	if large {
+		// one origin's route set needs several advertisements: its own replays and the replays
+		// of everybody who learned the group consume several sequence numbers per group
+		basePlace := place
+		place = func() {
+			basePlace()
+			tmp := &convResult{Adverts: st.adverts}
+			largeDesc = " " + convLarge(s, rng, tmp, origins[0])
+		}
+	}
+	// who announces-and-is-judged: the origins; with replays in the history also any other
+	// agent (relays and late joiners replay tables too and then announce their own presence)
+	pick := func() int {
+		if large || (churn && rng.Chance(1, 3)) {
+			return rng.Intn(n)
+		}
+		return origins[rng.Intn(len(origins))]
+	}
+	defer func() { st.desc += largeDesc }()
 	st.desc = fmt.Sprintf("%s origins=%v seq-drift=%v churn=%v", g, origins, drift, churn)
 	if !churn {
 		// every link is up before any route exists: nothing is ever replayed
@@ -246,9 +297,11 @@ func c14Case(r *verifkit.R, phase string, ci int, rng *verifkit.Rand, churn bool
 				convSomeDeliveries(s, rng, rng.Intn(8))
 			}
 			if rng.Chance(1, 3) {
-				st.announceAndJudge(origins[rng.Intn(len(origins))])
+				st.announceAndJudge(pick())
 			}
 		}
+		st.desc += largeDesc
+		largeDesc = ""
 	}
 	rounds := rng.Range(3, 7)
 	for k := 0; k < rounds; k++ {
@@ -277,8 +330,19 @@ func c14Case(r *verifkit.R, phase string, ci int, rng *verifkit.Rand, churn bool
 				convSomeDeliveries(s, rng, rng.Intn(8))
 			}
 		}
-		st.announceAndJudge(origins[rng.Intn(len(origins))])
+		st.announceAndJudge(pick())
 	}
+	if large { // and afterwards every agent announces again
+		order := make([]int, n)
+		for i := range order {
+			order[i] = i
+		}
+		verifkit.Shuffle(rng, order)
+		for _, o := range order {
+			st.announceAndJudge(o)
+		}
+	}
+	st.checkSequenceReuse()
 	r.Add("cases_"+phase, 1)
 	r.Eval(fmt.Sprintf("%s|%s|%d/%d", phase, st.desc, st.judgedClean, st.judgedReplay), st.judgedClean+st.judgedReplay >= 2)
 	if r.NeedSample() {
@@ -295,8 +359,11 @@ func TestVerif_C14(t *testing.T) {
 	r := verifkit.Start(t, "C14", "simnet")
 	r.Rule("one case = one history of connects (full-table replays), disconnects, bystander announcements and 3-7 judged origin announcements on 3-5 real Flooder+routing.Manager nodes with drifted sequence counters; each judged announcement is checked at every connected agent for processing and for renewed LastUpdate of every route of the origin; " +
 		"non-trivial = at least two announcements were judged; distinct by phase+scenario+judged counts")
-	r.Cases("stable", r.N(1300, 60000), func(ci int, rng *verifkit.Rand) { c14Case(r, "stable", ci, rng, false) })
-	r.Cases("churn", r.N(900, 40000), func(ci int, rng *verifkit.Rand) { c14Case(r, "churn", ci, rng, true) })
+	r.Cases("stable", r.N(1300, 60000), func(ci int, rng *verifkit.Rand) { c14Case(r, "stable", ci, rng, false, false) })
+	r.Cases("churn", r.N(900, 40000), func(ci int, rng *verifkit.Rand) { c14Case(r, "churn", ci, rng, true, false) })
+	// an origin whose route set needs several advertisements, late joiners, then everybody announces
+	r.Cases("large", r.N(40, 2000), func(ci int, rng *verifkit.Rand) { c14Case(r, "large", ci, rng, true, true) })
+	r.Require("cases_large", 30)
 	r.Require("announcements_judged_clean", 3000)
 	r.Require("announcements_judged_replay-preceded", 500)
 	r.Require("copies_renewed", 5000)
